@@ -25,6 +25,17 @@ pub fn snake(s: &str) -> String {
     words.join("_")
 }
 
+/// the function name the generator gives a method: snake_case as a raw identifier (valid for ordinary
+/// names and keywords alike), a trailing underscore for the three names that cannot be raw
+pub fn method_fn(name: &str) -> String {
+    let sn = snake(name);
+    if ["self", "super", "crate"].contains(&sn.as_str()) {
+        format!("{}_", sn)
+    } else {
+        format!("r#{}", sn)
+    }
+}
+
 /// Rust spelling of a field's type as the generator names it.
 pub fn rust_ty(t: &Ty, path: &str, m: &str) -> String {
     match t {
@@ -55,10 +66,10 @@ pub fn driver_source(i: usize, idl: &Idl) -> String {
     s.push_str(&format!("impl {}::VarlinkInterface for Srv {{\n", m));
     for mem in idl.of_kind("method") {
         let Def::Method(inp, _out) = &mem.def else { continue };
-        let fname = snake(&mem.name);
+        let fname = method_fn(&mem.name);
         let params: Vec<String> = inp.iter().map(|(n, t)| format!("r#{}: {}", n, rust_ty(t, &format!("{}_Args_{}", mem.name, n), &m))).collect();
         s.push_str(&format!(
-            "    fn r#{}(&self, call: &mut dyn {}::Call_{}{}{}) -> varlink::Result<()> {{\n",
+            "    fn {}(&self, call: &mut dyn {}::Call_{}{}{}) -> varlink::Result<()> {{\n",
             fname,
             m,
             mem.name,
@@ -134,7 +145,7 @@ pub fn driver_source(i: usize, idl: &Idl) -> String {
             m, mem.name
         ));
         let args: Vec<String> = inp.iter().map(|(n, _)| format!("a.r#{}", n)).collect();
-        s.push_str(&format!("            let mut call = c.r#{}({});\n", snake(&mem.name), args.join(", ")));
+        s.push_str(&format!("            let mut call = c.{}({});\n", method_fn(&mem.name), args.join(", ")));
         s.push_str("            match mode {\n");
         s.push_str("                \"oneway\" => match call.oneway() { Ok(()) => json!({\"results\": [], \"oneway_ok\": true}), Err(e) => json!({\"results\": [render_error(&e)], \"oneway_ok\": false}) },\n");
         s.push_str("                \"more\" => {\n                    let mut results = vec![];\n                    let mut equal = vec![];\n                    match call.more() {\n                        Err(e) => { results.push(render_error(&e)); equal.push(false); }\n                        Ok(it) => {\n                            let mut k = 0usize;\n                            for r in it {\n                                match r {\n");
